@@ -86,3 +86,10 @@ package base
 //@   requires len(f.Payload) <= 65535
 //@   ensures[C04] err == nil && len(ret) == 4 + len(f.Payload)
 //@   modifies fresh
+
+// --- C20: the URL rendered in a request line carries no credentials ------------------------
+//@ func (u *URL) CloneWithoutCredentials
+//@   opt safety-tag=C20
+//@   ensures[C20] ret != nil && fresh(ret) && ret.User == nil
+//@   ensures[C20] ret.Scheme == u.Scheme && ret.Host == u.Host && ret.Path == u.Path && ret.RawPath == u.RawPath && ret.RawQuery == u.RawQuery && ret.ForceQuery == u.ForceQuery
+//@   modifies fresh
